@@ -1763,6 +1763,66 @@ def plan(tier, seed):
     return out
 
 
+def lencount_task(t):
+    """len(results) is the exact match count whatever the limit - also when
+    posting blocks were skipped or the matcher was rewritten in an earlier
+    segment.  Reuses the C01 universe corpus (one term per subset of
+    documents), blocks of 1 posting, multi-segment layouts with a field that
+    exists only in some segments."""
+    from mc import corpus, qast
+    from mc.checks import c01
+    D, seed, layout, nsl, sl = t
+    acc = core.Acc()
+    docs = corpus.universe_docs(D, seed)
+    if layout.get("w_only_in_last"):
+        # field w exists only in the last document, i.e. only in the last
+        # segment: Every("w") / Prefix("w", ..) clauses vanish from the
+        # matcher of the earlier segments (which then supports block quality
+        # and skips) but not from the last one
+        for i in range(D - 1):
+            docs[i]["w"] = []
+        docs[D - 1]["w"] = ["a", "ab"]
+    ix, docs = corpus.build_index(docs, layout)
+    try:
+        model = corpus.make_model(docs)
+        terms = c01.term_leaves(D)
+        extra = [["everyf", "w"], ["everyf", "n"], ["everyf", "p"], ["every"], ["prefix", "w", "a"]]
+        with ix.searcher() as s:
+            km = c01.keymap(s)
+            i = 0
+            for op in c01.NARY + c01.BINOPS:
+                for a in terms + extra:
+                    for b in (terms + extra if D <= 4 else extra):
+                        i += 1
+                        if i % nsl != sl:
+                            continue
+                        ast = [op, [a, b]] if op in c01.NARY else [op, a, b]
+                        ref = qast.ref_eval(ast, model)
+                        q = qast.to_whoosh(ast)
+                        for k in (1, 2, 3):
+                            acc.count("evaluations")
+                            acc.count("lencount_cases")
+                            try:
+                                r = s.search(q, limit=k)
+                                n = len(r)
+                                dset = set(km[d] for d in r.docs())
+                            except Exception as e:
+                                acc.violation("len|exc:%s" % type(e).__name__,
+                                              {"lencount": True, "D": D, "seed": seed, "layout": layout, "ast": ast, "k": k},
+                                              "search(limit=%d) raised %r" % (k, e))
+                                continue
+                            if 0 < len(ref) < D:
+                                acc.count("distinct_nontrivial")
+                            if n != len(ref) or dset != ref:
+                                acc.violation("len|%s|limit|%s" % (c01.top_shape(ast), "count" if n != len(ref) else "docs"),
+                                              {"lencount": True, "D": D, "seed": seed, "layout": layout, "ast": ast, "k": k},
+                                              "%s limit=%d: len(results)=%d docs()=%s, matching documents %s"
+                                              % (qast.shape(ast), k, n, sorted(dset), sorted(ref)))
+    finally:
+        corpus.destroy_index(ix)
+    return acc.result()
+
+
 def run(ctx):
     tasks = []
     fams = {}
@@ -1820,6 +1880,19 @@ def run(ctx):
     ]
     results = ctx.pmap(task, tasks)
     results += ctx.pmap(floatcol_task, [assignments(1) + assignments(2) + assignments(3)])
+    if not only:
+        lays = [{"segs": [2, 2], "deleted": [], "blocklimit": 1}, {"segs": [3, 1], "deleted": [0], "blocklimit": 1},
+                {"segs": [1, 1, 1, 1], "deleted": [3], "blocklimit": None, "storage": "file"},
+                {"segs": [1, 3], "deleted": [], "blocklimit": 2},
+                {"segs": [3, 1], "deleted": [], "blocklimit": 1, "w_only_in_last": True},
+                {"segs": [2, 1, 1], "deleted": [], "blocklimit": 1, "w_only_in_last": True}]
+        if ctx.tier != "quick":
+            lays += [{"segs": c, "deleted": d, "blocklimit": 1} for c in ([4], [2, 1, 1], [1, 2, 1]) for d in ([], [1], [0, 3])]
+        big = [{"segs": [5, 1], "deleted": [], "blocklimit": 1, "w_only_in_last": True},
+               {"segs": [3, 2, 1], "deleted": [1], "blocklimit": 1, "w_only_in_last": True},
+               {"segs": [5, 1], "deleted": [], "blocklimit": 2, "w_only_in_last": True}]
+        ctx.pmap(lencount_task, [(4, ctx.seed, lay, 4, sl) for lay in lays for sl in range(4)]
+                 + [(6, ctx.seed, lay, 2, sl) for lay in big for sl in range(2)])
     # merge raw violations: one representative (the simplest) per pre-signature
     merged = {}
     for res in results:
@@ -1854,6 +1927,9 @@ def run(ctx):
 
 def replay(case):
     core.setup_process(0)
+    if case.get("lencount"):
+        from mc.checks import c01
+        return c01.replay(dict(case, path="k%d" % min(case["k"], 2)))
     o = evaluate(case)
     return {"ok": not o.items, "kinds": o.kinds(),
             "what": "; ".join("%s: %s" % kw for kw in o.items) or "as documented",
